@@ -27,3 +27,22 @@ Example C06_ex :
   let s := events 10 (issue [list_of_string "hello"; list_of_string "world!"]) [Acc 2; WouldBlock; Acc 1; WouldBlock; Acc 100; Acc 3; Acc 100] in
   wire s = list_of_string "helloworld!" /\ settled s = [(0, 5); (1, 6)] /\ queue s = [].
 Proof. vm_compute. repeat split. Qed.
+
+(* Transport::onReady: a writable report for the descriptor always leads to a drain attempt, also
+   when the same poll result reports it readable *)
+Theorem C06_writable_never_ignored : forall s rd orc e q,
+  queue s = e :: q -> on_ready true s (Ready rd true) orc = drain_event (mkTS (queue s) (wire s) (settled s) false (sends s)) orc.
+Proof. exact writable_never_ignored. Qed.
+Print Assumptions C06_writable_never_ignored.
+
+(* ... and when the socket accepts again that attempt delivers everything pending *)
+Theorem C06_drain_delivers_all_when_accepted : forall q s big extra, queue s = q -> Forall (fun e => length (e_rest e) <= big) q ->
+  queue (fst (drain (S (length q) + extra) s (repeat (Acc big) (length q)))) = []
+  /\ write_interest (fst (drain (S (length q) + extra) s (repeat (Acc big) (length q)))) = false.
+Proof. exact drain_accept_all. Qed.
+Print Assumptions C06_drain_delivers_all_when_accepted.
+
+(* the dispatch of the pinned tree (readable ELSE writable) is refuted: the combined report changes nothing *)
+Theorem C06_refuted_readable_else_writable : forall s orc, on_ready false s (Ready true true) orc = (s, orc).
+Proof. exact combined_event_lost_before_fix. Qed.
+Print Assumptions C06_refuted_readable_else_writable.
